@@ -12,7 +12,7 @@ import time
 from harness.sim import Sim
 from harness.witness._common import result, tag
 
-PROPERTIES = ["C06"]
+PROPERTIES = ["C06", "C09"]
 ORDER = 10
 
 SIGNATURE = "restart:journal-only-compaction-wedges"
